@@ -772,6 +772,34 @@ def run(ck):
                                      {"pickup_seq": {"seed": seed, "par": par}, "first": x, "other": y})
                 bodies.setdefault(key, (e, body))
         ck.coverage["pickup_draws_predicted_from_seed"] = npick
+    if not rp:
+        # persistent evaluation cache: execution 1 without the file (it writes it on close), execution 2 finds it
+        import tempfile
+        for kind, seed in [("sr_small", 3), ("sr_small_mse", 5), ("sr_std", 7)]:
+            par = {"gen": 6, "pop": 24, "code": 16}
+            with tempfile.TemporaryDirectory() as td:
+                os.environ["VV_C07_SERFILE"] = os.path.join(td, "cache.txt")
+                try:
+                    rc0, a, e0, args = transcript(runner, kind, seed, par, 0)
+                    had = os.path.exists(os.environ["VV_C07_SERFILE"]) and os.path.getsize(os.environ["VV_C07_SERFILE"]) > 0
+                    rc1, b, e1, _ = transcript(runner, kind, seed, par, 0)
+                finally:
+                    del os.environ["VV_C07_SERFILE"]
+            ck.count()
+            cmd = " ".join(args[1:])
+            if rc0 != 0 or rc1 != 0:
+                ck.add_violation("cache-file-run:%s:abort" % kind, "`%s` with a serialization file aborts (rc %d/%d)" % (cmd, rc0, rc1),
+                                 {"serfile_run": {"kind": kind, "seed": seed, "par": par}, "stderr": (e0 or e1)[-1500:]})
+                continue
+            ck.coverage.setdefault("cache_file_run", []).append({"cmd": cmd, "file_written": had})
+            if had:
+                ck.nontriv(("serfile", cmd))
+            if a != b:
+                i, x, y, g = first_diff(a, b)
+                ck.add_violation("cache-file-run:%s:transcripts-differ" % kind,
+                                 "`%s` with env.misc.serialization_file set: the execution that finds the evaluation cache saved by an "
+                                 "identical first execution differs from it from transcript line %d on (%s)" % (cmd, i, g),
+                                 {"serfile_run": {"kind": kind, "seed": seed, "par": par}, "line": i, "first": x, "second": y})
     timing_runs(ck, runner, tcfgs)
     inproc_runs(ck, runner, icfgs)
     ck.coverage["double_run_label"] = "TESTING (not proof): whole-run determinism on the listed configurations only"
